@@ -236,9 +236,12 @@ func runMutating(e *core.Env, c MCmd, env MEnv, file string, viaCLI bool) MResul
 		defer util.SetVerifRepeatHooks(nil)
 	}
 	if viaCLI {
-		args := append(c.Args(), file)
+		args := c.Args()
 		if !c.Warn {
-			args = append(c.Args(), "--no-warn", file)
+			args = append(args, "--no-warn")
+		}
+		if file != "" {
+			args = append(args, file)
 		}
 		cres := obs.RunCLI(obs.CLIEnv{ConfigDir: e.Dir + "/cfg", Cpus: env.Cpus, Theme: "no_colour", ConfigFile: env.ConfigFile(), Clock: clock, OnPrint: onPrint}, args...)
 		res.Panic, res.Code, res.Out, res.ErrText = cres.Panic, cres.Code, cres.Out, cres.Err
